@@ -62,13 +62,17 @@ PROPS = {
     },
     'C13': {
         'level': 'proof',
-        'claim': 'Receiver figures: _calc_snr definitions and the inverse-sum identity; update_snr adds every given '
-                 'contribution exactly once on top of the RAW figures and never writes raw_* or osnr_nli (frame), so '
-                 'recomputing for successive modes cannot accumulate.',
-        'level_note': 'update_snr proved for up to three contributions (the loop is a fold over a tuple); verdict '
-                      'thresholds and the mode search loop in request.py are not yet under contract',
-        'trusted': NUMPY_TRUST,
-        'extra': [],
+        'claim': 'Verdict proved on the real request loop body: a fixed-mode request is blocked (MODE_NOT_FEASIBLE) exactly '
+                 'when the rounded minimum over channels of GSNR(0.1 nm) - penalties is below required OSNR + margin, on the '
+                 'path or (bidirectional) on the reverse path, each evaluated on a deep copy; receiver figures: _calc_snr '
+                 'definitions, inverse-sum identity, update_snr adds every contribution once on the RAW figures and never '
+                 'writes raw_* or osnr_nli.',
+        'level_note': 'propagate() is a call-site summary in the verdict contract (its loop is proved per element in C02); '
+                      'update_snr proved for up to three contributions; the automatic mode search loop '
+                      '(propagate_and_optimize_mode: ordering by baud rate then bit rate) is not under contract; penalty '
+                      'tables / out-of-table blocking / successive-mode histories are a bounded stand-in',
+        'trusted': NUMPY_TRUST + ['numpy.argmin (an index attaining the minimum)', 'propagate call-site summary'],
+        'extra': [{'name': 'penalties', 'kind': 'bounded', 'script': 'bounded/penalties.py'}],
     },
     'C14': {
         'level': 'proof',
